@@ -80,6 +80,10 @@ type vWorld struct {
 	runLast  bool          // the most recently started Run is still alive
 	runQuit  chan struct{} // closed at teardown: zombies end without reporting
 	swapped  bool
+	expConf  *conf.Path // configuration the handler was last given while running (or at creation)
+	staleRun bool       // a Run was started with another configuration than that
+	race     bool       // armed: when the handler is being stopped, let the instance report ready / not-ready
+	raced    string
 	drainD   []chan defs.PathDescribeRes  // answer channels of all describe requests (drained for duplicates)
 	drainR   []chan defs.PathAddReaderRes // ... and of all add-reader requests
 }
@@ -106,6 +110,28 @@ func (w *vWorld) rep(s string) {
 
 func (w *vWorld) Log(_ logger.Level, f string, a ...any) {
 	m := fmt.Sprintf(f, a...)
+	if w.race && strings.Contains(m, "[RPI Camera source] stopped: ") {
+		// we are in the loop goroutine inside Handler.Stop(), before it cancels the handler context: let the
+		// instance report ready / not-ready now and give the handler routine time to start delivering it
+		w.race = false
+		if h, ok := w.pa.source.(*staticsources.Handler); ok {
+			if w.srcUp {
+				w.raced = "notready"
+				go h.SetNotReady(defs.PathSourceStaticSetNotReadyReq{})
+			} else {
+				w.raced = "ready"
+				go func() {
+					res := h.SetReady(defs.PathSourceStaticSetReadyReq{Desc: vGoodDesc(), ReplaceNTP: true})
+					if res.Err != nil {
+						w.rep("src=" + vErrTok(res.Err))
+					} else {
+						w.rep("src=delivered")
+					}
+				}()
+			}
+			time.Sleep(time.Millisecond)
+		}
+	}
 	switch {
 	case strings.HasSuffix(m, "runOnAvailable command started"):
 		w.tok("h+avail")
@@ -398,8 +424,9 @@ func vReset(f []string) string {
 	w.pa.initialize()
 	out := w.settle()
 	if h, ok := w.pa.source.(*staticsources.Handler); ok {
-		if set, ok2 := verifutil.Funcs["c19_set_instance"].(func(any, func(context.Context) error) bool); ok2 {
+		if set, ok2 := verifutil.Funcs["c19_set_instance"].(func(any, func(context.Context, any, any) error) bool); ok2 {
 			w.swapped = set(h, w.sourceRun)
+			w.expConf = w.pa.SafeConf()
 		}
 	}
 	return out
@@ -408,9 +435,13 @@ func vReset(f []string) string {
 // Run() of the controlled static source instance: lives until its context is cancelled (Stop / retry),
 // or until the harness makes it fail (`srcfail`).  At teardown a Run that nobody cancelled (a zombie)
 // ends the goroutine without reporting, so that the bubble can be left.
-func (w *vWorld) sourceRun(ctx context.Context) error {
+func (w *vWorld) sourceRun(ctx context.Context, c any, reload any) error {
 	fail := make(chan struct{}, 1)
+	rl, _ := reload.(chan *conf.Path)
 	w.mu.Lock()
+	if cp, ok := c.(*conf.Path); ok && w.expConf != nil && cp != w.expConf {
+		w.staleRun = true
+	}
 	w.runAlive++
 	if w.runAlive > w.runMax {
 		w.runMax = w.runAlive
@@ -425,17 +456,19 @@ func (w *vWorld) sourceRun(ctx context.Context) error {
 		}
 		w.mu.Unlock()
 	}
-	select {
-	case <-ctx.Done():
-		done()
-		return fmt.Errorf("terminated")
-	case <-fail:
-		done()
-		return fmt.Errorf("verif: source failed")
-	case <-w.runQuit:
-		runtime.Goexit()
+	for {
+		select {
+		case <-ctx.Done():
+			done()
+			return fmt.Errorf("terminated")
+		case <-fail:
+			done()
+			return fmt.Errorf("verif: source failed")
+		case <-rl: // hot reload forwarded to the running instance
+		case <-w.runQuit:
+			runtime.Goexit()
+		}
 	}
-	return nil
 }
 
 // wait for quiescence, then render what the loop did and which answers arrived
@@ -762,7 +795,14 @@ func vExec(op string) string {
 		if !w.swapped {
 			return "runs=na"
 		}
-		r := fmt.Sprintf("runs=%d max=%d", a, m)
+		w.mu.Lock()
+		cf := "ok"
+		if w.staleRun {
+			cf = "stale"
+		}
+		w.staleRun = false
+		w.mu.Unlock()
+		r := fmt.Sprintf("runs=%d max=%d conf=%s", a, m, cf)
 		if out != "-" {
 			r = out + " " + r
 		}
@@ -782,6 +822,11 @@ func vExec(op string) string {
 		if w.closed {
 			return "ignored"
 		}
+		w.mu.Lock()
+		if w.running {
+			w.expConf = nc
+		}
+		w.mu.Unlock()
 		w.syncAdd(1)
 		go func() { pa.reloadConf(nc); w.syncAdd(-1) }()
 		return w.settle()
@@ -793,7 +838,10 @@ func vExec(op string) string {
 		pa.close()
 		return w.settle()
 
-	case "tick":
+	case "tick", "srcrace":
+		if f[0] == "srcrace" {
+			w.race, w.raced = true, ""
+		}
 		for len(w.timerSig) > 0 {
 			<-w.timerSig
 		}
@@ -812,13 +860,49 @@ func vExec(op string) string {
 		tm.Stop()
 		el := time.Since(start)
 		out := w.settle()
+		suffix := ""
+		if f[0] == "srcrace" {
+			w.race = false
+			if w.raced != "" {
+				el -= time.Millisecond // the pause of the injection
+			} else {
+				w.raced = "none"
+			}
+			// does the loop still answer?  (real select arm chAPIPathsGet)
+			alive := "dead"
+			if w.closed {
+				alive = "ok"
+			} else {
+				okc := make(chan struct{})
+				go func() {
+					_, _ = pa.APIPathsGet(pathAPIPathsGetReq{})
+					close(okc)
+				}()
+				for i := 0; i < 400; i++ {
+					synctest.Wait()
+					select {
+					case <-okc:
+						alive = "ok"
+					default:
+					}
+					if alive == "ok" {
+						break
+					}
+					time.Sleep(5 * time.Millisecond)
+				}
+				if alive == "dead" {
+					w.stuck = true
+				}
+			}
+			suffix = " race=" + w.raced + " loop=" + alive
+		}
 		if !fired {
 			if out == "-" {
-				return "none"
+				return "none" + suffix
 			}
-			return "none " + out
+			return "none " + out + suffix
 		}
-		return "after=" + strconv.FormatInt(el.Milliseconds(), 10) + " " + out
+		return "after=" + strconv.FormatInt(el.Milliseconds(), 10) + " " + out + suffix
 
 	case "sleep":
 		time.Sleep(time.Duration(verifutil.Atoi(f[1])) * time.Millisecond)
@@ -978,16 +1062,23 @@ func vGenSourceRetry(r *verifutil.Rand) []string {
 		ops = append(ops, fmt.Sprintf("addrd %d %d", rid, k), "runs")
 		fails := r.Intn(3)
 		for f := 0; f < fails; f++ {
+			if r.Bool() {
+				ops = append(ops, "reload "+vb(r.Bool())) // hot reload while the source runs: the retry must use it
+			}
 			ops = append(ops, "srcfail", "runs", fmt.Sprintf("sleep %d", 5000+r.Intn(200)), "runs")
+		}
+		tick := "tick"
+		if r.Chance(2, 3) {
+			tick = "srcrace" // the instance reports ready / not-ready while the handler is being stopped
 		}
 		switch r.Intn(4) {
 		case 0: // never becomes ready: start timeout
-			ops = append(ops, "tick", "runs")
+			ops = append(ops, tick, "runs")
 		case 1: // path closed while running
 			ops = append(ops, "srcready 1", "runs", "close", "runs")
 			return ops
 		default:
-			ops = append(ops, "srcready 1", "runs", fmt.Sprintf("rmrd %d", k), "tick", "runs")
+			ops = append(ops, "srcready 1", "runs", fmt.Sprintf("rmrd %d", k), tick, "runs")
 		}
 	}
 	if r.Bool() {
